@@ -1,2 +1,97 @@
-From Coq Require Import NArith List Bool. Import ListNotations.
-From LunaModel Require Import StreamOut.
+(* C13 -- Bulk OUT endpoints ACK exactly the data they deliver.
+
+   Objects (Model/StreamOut.v, Model/C16_OutTrack.v):
+     so_run mps depth (so_init depth) ins   the code-shaped model of USBStreamOutEndpoint(max_packet_size = mps, buffer_size =
+                                            depth): boundary-detector model (C28), the endpoint's registers (expected toggle,
+                                            overflow, rx_cnt, transfer_active, next_active) and equations, pointer/memory FIFO
+                                            model (C18); bytes are written one by one and rolled back on bad CRC / overflow
+     ss_run mps depth ss_init ins           the packet-level specification machine: list queue, packet tracker, toggle,
+                                            mid-transfer flag.  A packet's payload is appended to the queue in one step, framed
+                                            (`first` iff it starts a transfer, `last` iff the packet is shorter than mps), when the
+                                            packet has ended CRC-valid, addressed, with the expected toggle and without having
+                                            lost a byte.  Responses: expected toggle -> ACK iff no byte was lost, else NAK;
+                                            other toggle -> ACK, nothing stored; PING -> ACK iff mps entries are free.
+                                            Toggle and mid-transfer flag advance exactly with an ACK for new data.
+     ss_env_ok                              the environment assumption E0-E4 (StreamOut.v section 3), checked cycle by cycle
+     so_transfers ins outs                  the entries handed to the consumer: cycles with stream.valid & stream.ready
+
+   All statements hold for every max_packet_size >= 1, every buffer size and every input history of any length. *)
+From Coq Require Import NArith List Bool Arith. Import ListNotations.
+From LunaModel Require Import BoundaryDet TxFifo C16_OutTrack StreamOut StreamOut_proofs.
+Open Scope nat_scope.
+
+(* the model shows, cycle by cycle, ack, nak, stream.valid and (while valid) payload/first/last of the specification *)
+Theorem C13_model_refines_spec : forall mps depth, 1 <= mps -> forall ins,
+  ss_env_ok mps depth ss_init ins = true ->
+  map so_norm (so_run mps depth (so_init depth) ins) = ss_run mps depth ss_init ins.
+Proof. exact so_refines. Qed.
+Print Assumptions C13_model_refines_spec.
+
+(* what the model hands to the consumer, followed by what is still queued, is exactly the concatenation of the framed
+   payloads of the packets accepted as new data: each exactly once, in order, whole; corrupted, NAKed (overflowed) and
+   repeated-toggle packets contribute nothing *)
+Theorem C13_stream_is_accepted_payloads : forall mps depth, 1 <= mps -> forall ins,
+  ss_env_ok mps depth ss_init ins = true ->
+  so_transfers ins (so_run mps depth (so_init depth) ins) ++ t_q (ss_run_state mps depth ss_init ins)
+  = concat (ss_accepted_frames mps depth ss_init ins).
+Proof. exact so_model_stream. Qed.
+Print Assumptions C13_stream_is_accepted_payloads.
+
+(* the model's handshakes are the specification's *)
+Theorem C13_handshakes : forall mps depth, 1 <= mps -> forall ins,
+  ss_env_ok mps depth ss_init ins = true ->
+  map (fun o => (v_ack o, v_nak o)) (so_run mps depth (so_init depth) ins)
+  = map (fun o => (v_ack o, v_nak o)) (ss_run mps depth ss_init ins).
+Proof. exact so_model_handshakes. Qed.
+Print Assumptions C13_handshakes.
+
+(* reading of the specification's responses: when a response to a data packet is requested (no PING in the same
+   cycle), a packet with the expected toggle is ACKed iff none of its bytes was lost -- the condition under which its
+   payload is committed -- and NAKed otherwise; a packet with the other toggle is ACKed (and nothing of it was stored) *)
+Theorem C13_response : forall mps depth s i, u_tgt i = true -> u_rfr i = true -> u_ping i = false ->
+  let o := ss_outf mps depth s i in
+  (ss_match s i = true -> v_ack o = negb (ss_lost_now depth s i || t_lost s) /\ v_nak o = (ss_lost_now depth s i || t_lost s)) /\
+  (ss_match s i = false -> v_ack o = true /\ v_nak o = false).
+Proof. exact ss_response. Qed.
+Print Assumptions C13_response.
+
+(* the expected toggle advances exactly with an ACK for new data *)
+Theorem C13_toggle : forall mps depth s i, u_clr i = false ->
+  t_tog (ss_next mps depth s i) = if u_tgt i && u_rfr i && ss_match s i && negb (ss_lost_now depth s i || t_lost s)
+                                   then negb (t_tog s) else t_tog s.
+Proof. exact ss_toggle. Qed.
+Print Assumptions C13_toggle.
+
+(* ---- non-vacuity: max_packet_size 2, buffer 3, consumer stalled.
+   DATA0 [1;2] (full packet, ACK), DATA1 [3;4] finds one free entry: byte 4 is lost -> NAK eight cycles later (full-speed
+   timing; the gateware as found ACKs here), nothing of it is delivered; the consumer drains; the retry DATA1 [3;4] is
+   ACKed; DATA0 zero-length packet ends the transfer; DATA1 [9] starts a new one and is marked first. *)
+Definition cy (tgt rfr rdy v n c i : bool) (tog p : N) : so_in :=
+  {| u_tgt := tgt; u_ping := false; u_rfr := rfr; u_tog := tog; u_clr := false; u_rdy := rdy;
+     u_rx := {| r_valid := v; r_next := n; r_cin := c; r_iin := i; r_pay := p |} |}.
+Definition idle (rdy : bool) (tog : N) (k : nat) : list so_in := repeat (cy true false rdy false false false false tog 0%N) k.
+Definition pkt (rdy : bool) (tog : N) (bs : list N) (delay : nat) : list so_in :=
+  [cy true false rdy true false false false tog 0%N]
+  ++ map (cy true false rdy true true false false tog) bs
+  ++ [cy true false rdy false false true false tog 0%N]
+  ++ idle rdy tog delay ++ [cy true true rdy false false false false tog 0%N] ++ idle rdy tog 3.
+Definition C13_hist : list so_in :=
+  pkt false 0 [1; 2]%N 7 ++ pkt false 1 [3; 4]%N 7 ++ idle true 1 4 ++ pkt true 1 [3; 4]%N 7
+  ++ pkt true 0 [] 0 ++ pkt true 1 [9]%N 0 ++ idle true 1 4.
+
+Example C13_hist_env : ss_env_ok 2 3 ss_init C13_hist = true.
+Proof. reflexivity. Qed.
+
+Definition acks (outs : list so_out) : list bool :=
+  flat_map (fun o => if v_ack o then [true] else if v_nak o then [false] else []) outs.
+
+Example C13_hist_run :
+  acks (so_run 2 3 (so_init 3) C13_hist) = [true; false; true; true; true]
+  /\ so_transfers C13_hist (so_run 2 3 (so_init 3) C13_hist)
+     = frame true false [1; 2]%N ++ frame false false [3; 4]%N ++ frame true true [9]%N.
+Proof. split; reflexivity. Qed.
+
+(* the specification state survives the packing used by the runtime oracle *)
+Example C13_oracle_packing :
+  let s := ss_run_state 2 3 ss_init (firstn 20 C13_hist) in ss_dec 2 3 (ss_enc 2 3 s) = s.
+Proof. reflexivity. Qed.
